@@ -47,7 +47,7 @@ def random_specs(rng, n):
             if rng.random() < 0.3:
                 v.serialize = ["s%d" % i, "ser%d_x" % i][: rng.randint(1, 2)]
             vs.append(v)
-        out.append(EnumSpec("R%d" % k, vs, serialize_all=rng.choice([None] + casing.ALL_STYLE_STRINGS), role="random", note="random"))
+        out.append(decorate(rng, EnumSpec("R%d" % k, vs, serialize_all=rng.choice([None] + casing.ALL_STYLE_STRINGS), role="random", note="random")))
     return out
 
 
